@@ -253,6 +253,8 @@ def base_types(rng, n_random, depth):
     # NOP_UNBOUNDED_BUFFER structures only exist at the head of caller-allocated storage: they are never embedded in generated types
     # (their documented pairs are added as a top-level family in generate())
     out = [t for t in out if not (t.flags & tg.F_UNBOUNDED)]
+    # zero-length std::arrays are paired explicitly in generate(); the rewrites would turn them into zero-length C arrays (not C++)
+    out = [t for t in out if ",0>" not in t.name]
     seen = set()
     while len([1 for _ in seen]) < n_random:
         t = tg.random_type(rng, depth, allow_table=True)
@@ -309,6 +311,36 @@ def generate(outdir, seed, npairs):
                  (tg.ubuf(tri, P("u32"), "UBTri_u32", lead=[P("i32"), tg.enum("u8")]), tg.struct([tg.Member(P("i32")), tg.Member(tg.enum("u8")), tg.Member(tg.vec(tri))])),
                  (tg.ubuf(P("i64"), P("int"), "UBi64_int", lead=[P("u16")], form="external"), tg.struct([tg.Member(P("u16")), tg.Member(tg.vec(P("i64")))]))]:
         seen.add((a.cpp, b.cpp)); pairs.append((a, b, "unbounded logical buffer ~ vector", True))
+    # value wrapper around a C array member ~ the wrapped array spelled as std::array / vector (documented: wrapper ~ wrapped, array forms interchangeable);
+    # the same wrapper against arrays of another extent is a near miss (only observed; true would have to be wire compatible)
+    for en, n in [("i32", 4), ("u8", 3), ("string", 2), ("u64", 1)]:
+        nm = "WCArr_%s_%d" % (en, n); e = P(en)
+        text = "struct %s {\n  %s v[%d]{};\n  NOP_VALUE(%s, v);\n};" % (nm, e.cpp, n, nm)
+        reflect = ("template <> struct Reflect<%s> {\n  static Sch schema() { return SchemaOf<decltype(%s::v)>(); }\n  static Val to(const %s& x) { return ToVal(x.v); }\n"
+                   "  static void from(const Val& v, %s* x) { FromVal(v, &x->v); }\n};") % (nm, nm, nm, nm)
+        w = tg._merge(nm, "%s=wrap(%s[%d])" % (nm, e.name, n), [e], tg._elem_flags(e)); w.integral = False; w.decls.append(tg.Decl(nm, text, reflect)); w.shaped("wrap", [tg.arr(e, n)], inner=tg.arr(e, n))
+        for b, rule, exp in [(tg.arr(e, n), "wrapper<T[N]> ~ array<T,N>", True), (tg.vec(e), "wrapper<T[N]> ~ vector<T>", True),
+                             (tg.arr(e, n * 2), "wrapper<T[N]> ~ array<T,2N> (near miss)", False), (tg.struct([tg.Member(e, n * 2)]), "wrapper<T[N]> ~ struct{T[2N]} (near miss)", False)]:
+            if (w.cpp, b.cpp) not in seen:
+                seen.add((w.cpp, b.cpp)); pairs.append((w, b, rule, exp))
+    # nested C arrays: T[N][M] ~ std::array<std::array<T,M>,N> (documented: C array ~ std::array with matching elements), against another inner
+    # extent it is a near miss (only observed; true would have to be wire compatible)
+    carr = tg.carr
+    for en, n, m in [("i32", 2, 3), ("u8", 3, 2), ("string", 2, 2), ("u16", 1, 5)]:
+        e = P(en)
+        a = tg.struct([tg.Member(carr(e, m), n), tg.Member(P("u8"))])
+        for b, rule, exp in [(tg.struct([tg.Member(tg.arr(tg.arr(e, m), n)), tg.Member(P("u8"))]), "nested C array T[N][M] ~ array<array<T,M>,N>", True),
+                             (tg.struct([tg.Member(tg.vec(tg.arr(e, m))), tg.Member(P("u8"))]), "nested C array T[N][M] ~ vector<array<T,M>>", True),
+                             (tg.struct([tg.Member(carr(e, m + 1), n), tg.Member(P("u8"))]), "nested C array T[N][M] ~ T[N][M+1] (near miss)", False),
+                             (tg.struct([tg.Member(tg.arr(tg.arr(e, m + 2), n)), tg.Member(P("u8"))]), "nested C array T[N][M] ~ array<array<T,M+2>,N> (near miss)", False)]:
+            if (a.cpp, b.cpp) not in seen:
+                seen.add((a.cpp, b.cpp)); pairs.append((a, b, rule, exp))
+    # the empty-sequence boundary of the documented vector ~ std::array pair: zero-length arrays, alone and inside member-wise fungible structures
+    for en in ["u8", "u32", "string"]:
+        e = P(en)
+        for a, b in [(tg.arr(e, 0), tg.vec(e)), (tg.struct([tg.Member(tg.arr(e, 0)), tg.Member(P("u8"))]), tg.struct([tg.Member(tg.vec(e)), tg.Member(P("u8"))]))]:
+            if (a.cpp, b.cpp) not in seen:
+                seen.add((a.cpp, b.cpp)); pairs.append((a, b, "vector<T> ~ array<T,0>", True))
     # near-miss family: sequence of integral elements vs logical buffer of wrapped integral elements (BIN vs ARY)
     for en in ["u32", "u8", "i64", "u16"]:
         if rng.random() < (0.8 if npairs < 300 else 1.0):
